@@ -22,10 +22,6 @@ func init() {
 		"(encoding/binary.bigEndian).Uint32",
 		"github.com/cosmos/cosmos-sdk/types/address.MustLengthPrefix",
 		"github.com/cosmos/cosmos-sdk/types/address.LengthPrefix",
-		"github.com/cosmos/cosmos-sdk/internal/conv.UnsafeStrToBytes",
-		"github.com/cosmos/cosmos-sdk/internal/conv.UnsafeBytesToStr",
-		"github.com/cosmos/cosmos-sdk/types.KVStorePrefixIterator",
-		"github.com/cosmos/cosmos-sdk/types.PrefixEndBytes",
 	} {
 		execFuncs[f] = true
 	}
@@ -574,5 +570,40 @@ func init() {
 		prT := fn.Signature.Results().At(0).Type().(*types.Pointer).Elem()
 		o := e.newObj(prT, e.zero(prT))
 		return Tuple{Ptr{Obj: o}, nilErr()}
+	}
+}
+
+func init() {
+	stubs["github.com/cosmos/cosmos-sdk/internal/conv.UnsafeStrToBytes"] = func(e *Exec, fn *ssa.Function, args []Value) Value {
+		return e.convert(args[0], types.Typ[types.String], types.NewSlice(types.Typ[types.Byte]))
+	}
+	stubs["github.com/cosmos/cosmos-sdk/internal/conv.UnsafeBytesToStr"] = func(e *Exec, fn *ssa.Function, args []Value) Value {
+		return e.convert(args[0], types.NewSlice(types.Typ[types.Byte]), types.Typ[types.String])
+	}
+	stubs["github.com/cosmos/cosmos-sdk/types.KVStorePrefixIterator"] = func(e *Exec, fn *ssa.Function, args []Value) Value {
+		ref := e.storeRefOf(args[0])
+		return e.makeIter(ref, e.keyItems(args[1].(Bytes)))
+	}
+	stubs["github.com/cosmos/cosmos-sdk/types.KVStoreReversePrefixIterator"] = stubs["github.com/cosmos/cosmos-sdk/types.KVStorePrefixIterator"]
+	extraIntrinsics["vSetAddrMax"] = func(e *Exec, fn *ssa.Function, args []Value) Value {
+		e.path.extra["addrMax"] = e.mustConstInt(args[0], "address length bound")
+		return nil
+	}
+}
+
+func init() {
+	stubs["strings.IndexByte"] = func(e *Exec, fn *ssa.Function, args []Value) Value {
+		sv := strView(args[0].(Str))
+		b := args[1].(*smt.Term)
+		M, ok := e.feasibleMax(sv.Len)
+		if !ok {
+			panic(engineErr("strings.IndexByte on a string of unbounded length"))
+		}
+		res := smt.Const(^uint64(0), 64) // -1
+		for j := M - 1; j >= 0; j-- {
+			found := smt.And(smt.ULt(c64(j), sv.Len), smt.Eq(sv.at(c64(j)), b))
+			res = smt.Ite(found, c64(j), res)
+		}
+		return res
 	}
 }
